@@ -2,3 +2,6 @@ import Sekai.Base.Util
 import Sekai.Base.Dec
 import Sekai.Model.NetProps
 import Sekai.Gen.NetProps
+import Sekai.Model.Layer2
+import Sekai.Model.Custody
+import Sekai.Model.Basket
